@@ -1,26 +1,3 @@
--- Root of the `EG` library: models, lemmas and property theorems for embedded-graphics.
+-- Root of the `EG` library (models, lemmas and property theorems for embedded-graphics).
+-- The lakefile globs `EG.+`, so `lake build EG` builds every module under EG/.
 import EG.Basic.Core
-import EG.Model.Rect
-import EG.Model.Target
-import EG.Lemmas.Rect
-import EG.Lemmas.RectPoints
-import EG.Props.C16
-import EG.Props.C01
-import EG.Props.C02
-import EG.Props.C03
-import EG.Props.C04
-import EG.Props.C05
-import EG.Props.C06
-import EG.Props.C07
-import EG.Props.C08
-import EG.Props.C09
-import EG.Props.C10
-import EG.Props.C11
-import EG.Props.C12
-import EG.Props.C13
-import EG.Props.C14
-import EG.Props.C15
-import EG.Props.C17
-import EG.Props.C18
-import EG.Props.C19
-import EG.Props.C20
